@@ -67,6 +67,7 @@ ASSUMPTIONS = {
 
 
 LEVELS = {"C10": "other"}
+ARITH = {"C20": "randgraph.randgraph#samplesize"}     # scalar verification conditions (pyvc/arith.py)
 PROBES = {"C10": [("c10_selfref.py", "self-containing-tuple"), ("c10_selfref.py", "class-by-value-with-super")]}
 EXPLANATIONS = {
     "C10": "C10 is decided in two labelled parts. PROVED (obligations / discharged below): the work-list scheduler of _NonrecursivePickler - "
@@ -87,6 +88,9 @@ def _task(t):
     try:
         if kind == "side":
             return driver.verify_side(name, repo_root)
+        if kind == "arith":
+            from . import arith
+            return arith.verify(repo_root)
         if kind == "func":
             r = driver.verify_function(name, repo_root, shard=shard)
             if shard is not None:
@@ -184,6 +188,8 @@ def run_check(pid: str, tier: str, repo_root=None, seed=0):
     tasks.sort(key=lambda t: 0 if len(t) > 3 else 1)          # heavy functions first
     tasks += [("lemma", l, repo_root) for l in lemmas]
     tasks.append(("side", pid, repo_root))
+    if pid in ARITH:
+        tasks.append(("arith", ARITH[pid], repo_root))
     results = []
     if tasks:
         ctx = mp.get_context("fork")
@@ -252,6 +258,23 @@ def run_check(pid: str, tier: str, repo_root=None, seed=0):
     for fname, items in by_func.items():
         focus = [fname.split("/")[-1]] if "/" in fname else [fname]
         focus = [f_.split("#")[0] for f_ in focus]            # contract variants are checked on the same function
+        if fname in ARITH.values():
+            # scalar obligations come with a solver model over (count, i, draw, connectivity, ensurelink): replayed directly
+            from . import arith
+            done = False
+            for (res, ob) in items:
+                if ob.get("model"):
+                    path = os.path.join(REPLAY_DIR, pid, sanitize(ob["id"]) + ".replay.py")
+                    if arith.write_replay(path, ob, repo_root):
+                        replay_paths.append(path)
+                        lines.append(f"VIOLATION property={pid} replay={path}")
+                        done = True
+                        break
+                    os.remove(path)
+            if done:
+                for (res, ob) in items:
+                    write_replay(pid, res, ob)
+                continue
         agg, failure = bounded_search(pid, focus, BOUNDED_BUDGET_S, seed, repo_root)
         agg["focus"] = focus
         agg["purpose"] = "search for a failing input for refuted obligations"
